@@ -139,6 +139,18 @@ for _member in ["cmem", "vmem", "lmem", "fmem"]:
         for _ctx in ["same", "block", "fn", "method"]:
             SPECIAL.append(("member-" + _member, _w, _ctx, _stmt % _member))
 
+# members brought in by name (`import cmem, vmem, lmem, fmem from mod`) and written through the bare name
+for _member in ["cmem", "vmem", "lmem", "fmem"]:
+    for _w, _stmt in [("assign", "%s = 7"), ("typed", "%s: int = 7"), ("+=", "%s += 1"), ("index", "%s[0] = 9"), ("index+=", "%s[0] += 9"),
+                      ("?=stmt", "%s ?= give()"), ("loopcounter", "from 0 to 3, %s {\n}"), ("unpack", "[%s, u2] = [1, 2]"),
+                      ("modify", "modify %s = 7")]:
+        if (_member == "lmem") != (_w.startswith("index")):
+            continue
+        if _member == "fmem" and _w not in ("assign", "modify"):
+            continue
+        for _ctx in (["fn", "fn-in-fn", "method"] if _w == "modify" else ["same", "block", "fn", "while"]):
+            SPECIAL.append(("named-" + _member, _w, _ctx, _stmt % _member))
+
 MOD_SRC = ('export const cmem: int = 5\nexport vmem: int = 5\nexport const lmem: [int...] = [1, 2]\n'
            'export const fmem: fn() -> int = fn() -> int {\n return 5\n}\n'
            'export peek: fn() -> int = fn() -> int {\n return cmem + vmem + lmem[0]\n}\n')
@@ -162,6 +174,11 @@ def special_program(kind, stmt, ctx):
         val = stmt.replace("fmem = 7", "fmem = fn() -> int {\n return 7\n}")
         return {"x.ms": "\n".join(["import mod", give, wrap(ctx, val), "print mod.peek()", "print mod.fmem()"]) + "\n",
                 "mod.ms": MOD_SRC}, ["11", "5"]
+    if kind.startswith("named-"):
+        val = stmt.replace("fmem = 7", "fmem = fn() -> int {\n return 7\n}")
+        # the importer's view of the four members after the write, then the module's own view
+        return {"x.ms": "\n".join(["import cmem, vmem, lmem, fmem, peek from mod", give, wrap(ctx, val),
+                                   "print cmem + vmem + lmem[0] + fmem()", "print peek()"]) + "\n", "mod.ms": MOD_SRC}, ["16", "11"]
     raise ValueError(kind)
 
 
@@ -213,9 +230,9 @@ class C10(Check):
             driver.write_files(d, files)
             res = driver.run(["run", "x.ms", "-q"], d)
             detail = {"files": files, "res": res.brief()}
-            rejected = res.exit != 0 and "Did not compile" in res.err
+            rejected = driver.compile_rejected(res)
             in_fn = ctx in ("fn", "fn-in-fn", "method", "own-ctor", "own-method", "own-method-closure")
-            plain_local = in_fn and not kind.startswith("member-") and not w.startswith("modify")
+            plain_local = in_fn and not kind.startswith("member-") and not w.startswith("modify") and not w.startswith("index")
             if res.cls in ("panic", "abort", "timeout"):
                 if "compiler/src" in res.err:
                     return {"outcome": "compiler-panic", "nontrivial": True, "tags": ["compiler-panic"]}
@@ -224,6 +241,11 @@ class C10(Check):
                 # the non-const exported member `vmem` may be assigned?  C11 says importers cannot reassign exports.
                 if res.exit == 0 and res.lines()[-len(expect):] == expect and plain_local:
                     return {"outcome": "accepted-local-unchanged", "nontrivial": True, "tags": ["accepted-unchanged"]}
+                if kind.startswith("named-") and not w.startswith("index") and res.exit == 0 and res.lines()[-1:] == expect[-1:]:
+                    # `import a from m` gives the importer a binding of its own, initialised from the export; the repository's test
+                    # `not_import_const_bypass` pins that rebinding it is legal as long as the module's member is untouched.  So for
+                    # the rebinding forms the member "is never rebound" is judged on the module's own view (last line printed).
+                    return {"outcome": "accepted-own-binding-member-intact", "nontrivial": True, "tags": ["special-named", "named-rebinding-own-copy"]}
                 if res.exit == 0 and res.lines()[-len(expect):] == expect:
                     bad("accepted-unchanged", "write accepted by the compiler (value observed unchanged)", detail)
                 else:
@@ -240,7 +262,7 @@ class C10(Check):
         control_ok = rc.exit == 0
         res = driver.run_ms(src)
         detail = {"files": {"x.ms": src, "control.ms": ctl}, "res": res.brief(), "control": rc.brief()}
-        rejected = res.exit != 0 and "Did not compile" in res.err
+        rejected = driver.compile_rejected(res)
         init_print = {"int": "5", "bool": "true", "str": "init", "float": "1.5", "list": "[1, 2]", "optint": "5"}[ty]
         in_fn = ctx in ("fn", "fn-in-fn", "method")
         tags = [f"w-{w}", f"c-{ctx}", "control-ok" if control_ok else "control-rejected"]
